@@ -132,6 +132,9 @@ func p1(w *World, r *Report, reach *Reach, scope []*ssa.Function) {
 					r.OK("P-1", key, "Must* helper with constant arguments", site(w, c))
 				} else if why, ok := c09PanicExceptions[key]; ok {
 					r.OK("P-1", key, "Must* helper excepted: "+why, site(w, c))
+				} else if cn == "MustFromBig" && len(c.Common().Args) == 1 && strings.Contains(w.Canon(c.Common().Args[0]), ".StateDB.GetBalance(") {
+					// keyed by what is converted, not by where: a balance read from go-ethereum's state
+					r.OK("P-1", key, "Must* helper excepted: "+c09PanicExceptions["evm.(*StateDBWrapper).Finish:must:MustFromBig"], site(w, c))
 				} else {
 					r.Violate("P-1", key, "panicking helper "+cn+" applied to a non-constant value on an input path", map[string]interface{}{"path": reach.Path(fn)}, site(w, c))
 				}
